@@ -12,6 +12,7 @@ pub mod catalogue;
 pub mod matrix;
 pub mod rollback;
 pub mod snap;
+pub mod stream;
 
 use crate::fw::{self, Ctx, Outcome, Rng};
 use crate::refmodel::typecompat::{self as model, Dir, Ty, Verdict};
@@ -189,6 +190,11 @@ pub fn run(ctx: &Ctx) -> Outcome {
         for c in ["derived:de_udt:by_name:accept", "derived:de_udt:ordered:accept", "derived:de_udt:by_name:reject", "derived:de_udt:ordered:reject"] {
             out.require_class(c);
         }
+    }
+
+    // ---------------- part 1c: typed row streams over pages whose metadata changes ----------------
+    if want_part(ctx, "stream") && !ctx.miri() && matches!(ctx.variant.as_str(), "dbg" | "rel") {
+        out.merge(stream::run(ctx));
     }
 
     // ---------------- part 2: rollback ----------------
